@@ -11,7 +11,7 @@ start, end, length, letter, Letter, roman, Roman).
 attributed to a known cause (stable tags): {"text_keyword"} = DESIGN D13."""
 import html
 
-from talgen import Elem, Text, Raw, split_semi, plain_attrs, source_parts
+from talgen import Elem, Text, Raw, split_semi, plain_attrs, source_parts, RefCV
 
 DEFAULT = object()
 
@@ -163,7 +163,9 @@ class Ref:
             name = seg[1:]
             if self.has_var(name):
                 v = self.lookup_var(name)
-                if is_callable(v):
+                if isinstance(v, RefCV):
+                    v = v.value()
+                elif is_callable(v):
                     v = v()
                 return v
             return name
@@ -175,7 +177,9 @@ class Ref:
             raise OutOfScope("traversal into the default marker")
         if isinstance(cur, RepeatState):
             return cur.lookup(seg)
-        if is_callable(cur):
+        if isinstance(cur, RefCV):
+            cur = cur.value()
+        elif is_callable(cur):
             cur = cur()
         if isinstance(seg, str) and hasattr(cur, seg):
             return getattr(cur, seg)
@@ -200,6 +204,8 @@ class Ref:
             # the repeat variable itself: a mapping of its attributes
             return {k: cur.lookup(k) for k in ("index", "number", "even", "odd", "start", "end", "length", "letter",
                                                "Letter", "roman", "Roman")}
+        if isinstance(cur, RefCV):
+            return cur.value() if call else cur.rawValue()
         if call and is_callable(cur):
             cur = cur()
         return cur
